@@ -1,0 +1,211 @@
+//! Hooks used by the external verification harness (feature `verif` only).
+//!
+//! Every hook appends one JSON line to an in-process buffer which the harness
+//! drains with [take], and to the file named by `ANYTHING_VERIF_TRACE` if that
+//! is set (used when the hooks run inside the `any` binary).
+
+use std::fmt::Write as _;
+use std::io::Write as _;
+use std::sync::atomic::{AtomicBool, AtomicU64, Ordering};
+use std::sync::Mutex;
+
+use crate::numeric::Numeric;
+
+static SEQ: AtomicU64 = AtomicU64::new(0);
+static ENABLED: AtomicBool = AtomicBool::new(false);
+static BUFFER: Mutex<Vec<String>> = Mutex::new(Vec::new());
+static FILE: Mutex<Option<Option<std::fs::File>>> = Mutex::new(None);
+static COUNTS: Mutex<Vec<(String, u64)>> = Mutex::new(Vec::new());
+
+/// Turn in-process recording on or off.
+pub fn enable(on: bool) {
+    ENABLED.store(on, Ordering::SeqCst);
+}
+
+/// Take all events recorded so far.
+pub fn take() -> Vec<String> {
+    std::mem::take(&mut *BUFFER.lock().unwrap())
+}
+
+fn emit(line: String) {
+    let mut file = FILE.lock().unwrap();
+
+    let file = file.get_or_insert_with(|| {
+        let path = std::env::var_os("ANYTHING_VERIF_TRACE")?;
+        std::fs::OpenOptions::new()
+            .create(true)
+            .append(true)
+            .open(path)
+            .ok()
+    });
+
+    if let Some(f) = file {
+        let _ = writeln!(f, "{}", line);
+        let _ = f.flush();
+    }
+
+    if ENABLED.load(Ordering::SeqCst) {
+        BUFFER.lock().unwrap().push(line);
+    }
+}
+
+fn active() -> bool {
+    ENABLED.load(Ordering::SeqCst) || std::env::var_os("ANYTHING_VERIF_TRACE").is_some()
+}
+
+fn escape(s: &str) -> String {
+    let mut out = String::new();
+
+    for c in s.chars() {
+        match c {
+            '"' => out.push_str("\\\""),
+            '\\' => out.push_str("\\\\"),
+            c if (c as u32) < 0x20 => {
+                let _ = write!(out, "\\u{:04x}", c as u32);
+            }
+            c => out.push(c),
+        }
+    }
+
+    out
+}
+
+/// Record that the given step of opening the database has completed and
+/// abort the process if the harness asked for a crash at this point with
+/// `ANYTHING_VERIF_CRASH=<step>[:<n>]` (the n-th time the step is reached,
+/// counting from one).
+pub(crate) fn store_step(step: &str) {
+    let seq = SEQ.fetch_add(1, Ordering::SeqCst);
+
+    let n = {
+        let mut counts = COUNTS.lock().unwrap();
+
+        match counts.iter_mut().find(|e| e.0 == step) {
+            Some(e) => {
+                e.1 += 1;
+                e.1
+            }
+            None => {
+                counts.push((step.to_owned(), 1));
+                1
+            }
+        }
+    };
+
+    if active() {
+        emit(format!(
+            "{{\"ev\":\"store\",\"step\":\"{}\",\"n\":{},\"seq\":{}}}",
+            step, n, seq
+        ));
+    }
+
+    if let Ok(crash) = std::env::var("ANYTHING_VERIF_CRASH") {
+        let (at, count) = match crash.split_once(':') {
+            Some((at, count)) => (at, count.parse::<u64>().unwrap_or(1)),
+            None => (crash.as_str(), 1),
+        };
+
+        if at == step && count == n {
+            std::process::abort();
+        }
+    }
+}
+
+fn numeric(out: &mut String, n: &Numeric) {
+    let _ = write!(
+        out,
+        "{{\"n\":\"{}\",\"d\":\"{}\",\"u\":[",
+        n.value.numer(),
+        n.value.denom()
+    );
+
+    for (i, (unit, power, prefix)) in n.unit.verif_names().into_iter().enumerate() {
+        if i > 0 {
+            out.push(',');
+        }
+
+        let _ = write!(out, "[\"{}\",{},{}]", escape(&unit), power, prefix);
+    }
+
+    out.push_str("]}");
+}
+
+/// Record the application of an operator or function to evaluated operands.
+pub(crate) fn apply(op: &str, args: &[&Numeric], result: &Result<Numeric, crate::Error>) {
+    if !active() {
+        return;
+    }
+
+    let seq = SEQ.fetch_add(1, Ordering::SeqCst);
+    let mut line = format!("{{\"ev\":\"apply\",\"op\":\"{}\",\"args\":[", escape(op));
+
+    for (i, a) in args.iter().enumerate() {
+        if i > 0 {
+            line.push(',');
+        }
+
+        numeric(&mut line, a);
+    }
+
+    line.push_str("],");
+
+    match result {
+        Ok(n) => {
+            line.push_str("\"out\":");
+            numeric(&mut line, n);
+        }
+        Err(e) => {
+            let _ = write!(line, "\"err\":\"{}\"", escape(&e.to_string()));
+        }
+    }
+
+    let _ = write!(line, ",\"seq\":{}}}", seq);
+    emit(line);
+}
+
+/// Record the outcome of a database lookup: the phrase and the best scored
+/// documents (score bits and a key identifying the stored document).
+pub(crate) fn lookup(phrase: &str, top: &[(f32, u64)]) {
+    if !active() {
+        return;
+    }
+
+    let seq = SEQ.fetch_add(1, Ordering::SeqCst);
+    let mut line = format!("{{\"ev\":\"lookup\",\"phrase\":\"{}\",\"top\":[", escape(phrase));
+
+    for (i, (score, key)) in top.iter().enumerate() {
+        if i > 0 {
+            line.push(',');
+        }
+
+        let _ = write!(line, "[\"{:08x}\",\"{:016x}\"]", score.to_bits(), key);
+    }
+
+    let _ = write!(line, "],\"seq\":{}}}", seq);
+    emit(line);
+}
+
+/// Record a document as it is added to the index being built.
+pub(crate) fn add_document(key: u64) {
+    if active() {
+        let seq = SEQ.fetch_add(1, Ordering::SeqCst);
+        emit(format!(
+            "{{\"ev\":\"doc\",\"key\":\"{:016x}\",\"seq\":{}}}",
+            key, seq
+        ));
+    }
+
+    store_step("add_document");
+}
+
+/// A stable key for the stored bytes of a document.
+pub(crate) fn doc_key(bytes: &[u8]) -> u64 {
+    let mut hash = 0xcbf29ce484222325u64;
+
+    for b in bytes {
+        hash ^= *b as u64;
+        hash = hash.wrapping_mul(0x100000001b3);
+    }
+
+    hash
+}
